@@ -57,7 +57,8 @@ func (s sortableByProperty) Less(i, j int) bool {
 		value := ToLiquid(s.data[i])
 		rt := reflect.ValueOf(value)
 		if rt.Kind() == reflect.Map && rt.Type().Key().Kind() == reflect.String {
-			elem := rt.MapIndex(reflect.ValueOf(s.key))
+			// the key type may be a named string type: convert before the lookup
+			elem := rt.MapIndex(reflect.ValueOf(s.key).Convert(rt.Type().Key()))
 			if elem.IsValid() {
 				return elem.Interface()
 			}
